@@ -57,3 +57,19 @@ Example ex_seq : run_seq [EInt 1; EInt 2; EInt 3]
   [(EInt 4, [EInt 1; EInt 2; EInt 3; EInt 4]);
    (EArr [], [EInt 1; EStr "x"; EStr "y"; EInt 2; EInt 3; EInt 4])].
 Proof. vm_compute. reflexivity. Qed.
+
+(* named arguments: slice(end: 2) is slice(null, 2); an unknown name, a name given twice and a
+   name that collides with a positional argument are rejected *)
+Definition slice_pn : list (string * pkind) := [("start"%string, PSingle); ("end"%string, PSingle)].
+Example ex_named_end : bind_named slice_pn [] [("end"%string, EInt 2)] = Some [ENull; EInt 2].
+Proof. reflexivity. Qed.
+Example ex_named_swapped : bind_named slice_pn [] [("end"%string, EInt 3); ("start"%string, EInt 1)] = Some [EInt 1; EInt 3].
+Proof. reflexivity. Qed.
+Example ex_named_unknown : bind_named slice_pn [] [("stop"%string, EInt 3)] = None.
+Proof. reflexivity. Qed.
+Example ex_named_collides : bind_named slice_pn [EInt 1] [("start"%string, EInt 3)] = None.
+Proof. reflexivity. Qed.
+Example ex_named_twice : bind_named slice_pn [] [("end"%string, EInt 3); ("end"%string, EInt 4)] = None.
+Proof. reflexivity. Qed.
+Example ex_named_variadic : bind_named [("start"%string, PSingle); ("deleteCount"%string, PSingle); ("items"%string, PVariadic)] [EInt 0] [("items"%string, EInt 3)] = None.
+Proof. reflexivity. Qed.
